@@ -120,6 +120,18 @@ pub fn needle_families(level: u8, rng: &mut Rng) -> Vec<Needle> {
             v.push(nd(format!("rare@{},{}-{}", i1, i2, l), x));
         }
         if l > 256 {
+            // exactly one rare byte right at / around the 254-offset cap of
+            // pair selection
+            for k in [253usize, 254, 255, 256, 257] {
+                if k < l {
+                    let mut x = base.clone();
+                    x[k] = b'Z';
+                    v.push(nd(format!("rare-only@{}-{}", k, l), x));
+                    let mut x = vec![b'e'; l];
+                    x[k] = 0x7F;
+                    v.push(nd(format!("odd-byte@{}-{}", k, l), x));
+                }
+            }
             // rare bytes beyond index 254: the pair must come from elsewhere
             let mut x = base.clone();
             x[l - 1] = b'Z';
@@ -175,7 +187,7 @@ pub fn absent_byte(ndl: &[u8]) -> u8 {
 }
 
 /// Background kinds, all derived from the needle.
-pub const NBG: usize = 7;
+pub const NBG: usize = 9;
 
 /// Fill `buf[..hlen]` with background `kind`. None of these is guaranteed to
 /// be free of occurrences - the oracle decides - but kinds 0..=2 never
@@ -256,6 +268,49 @@ pub fn background(buf: &mut Vec<u8>, hlen: usize, ndl: &[u8], kind: usize, rng: 
                     buf.push(ndl[(i * 31 + (i / n) * 17 + rng.below(3) as usize) % n]);
                 }
             }
+        }
+        // random concatenation of the needle's own factors: suffixes,
+        // prefixes and inner pieces, now and then separated by a foreign byte
+        // (rich partial-match structure for any needle length: this is what
+        // drives Two-Way's shift/period memory through its corner cases)
+        7 | 8 => {
+            let x = absent_byte(ndl);
+            while buf.len() < hlen {
+                if n == 0 {
+                    buf.push(b'v');
+                    continue;
+                }
+                let (i, j) = match rng.below(6) {
+                    // a suffix (often short: the last few bytes / last period)
+                    0 | 1 => {
+                        let cap = if rng.chance(1, 2) { 8.min(n as u64) } else { n as u64 };
+                        let l = 1 + rng.below(cap) as usize;
+                        (n - l, n)
+                    }
+                    // a prefix
+                    2 => (0, 1 + rng.below(n as u64) as usize),
+                    // the whole needle minus its first byte
+                    3 => (1.min(n), n),
+                    // an inner piece
+                    _ => {
+                        let i = rng.below(n as u64) as usize;
+                        let j = i + 1 + rng.below((n - i) as u64) as usize;
+                        (i, j)
+                    }
+                };
+                buf.extend_from_slice(&ndl[i..j]);
+                let sep = if kind == 7 { 5 } else { 2 };
+                if rng.below(sep) == 0 {
+                    // a byte outside the needle; kind 8 sometimes uses one that
+                    // collides with a needle byte mod 64 instead
+                    if kind == 8 && rng.chance(1, 2) {
+                        buf.push(ndl[rng.below(n as u64) as usize] ^ 0x40);
+                    } else {
+                        buf.push(x);
+                    }
+                }
+            }
+            buf.truncate(hlen);
         }
         // the needle's period repeated, broken every n-1 bytes
         _ => {
